@@ -109,7 +109,11 @@ class GraphWorld(FnWorld):
             depth[0] = 0
             try:
                 if op[0] == "create":
-                    nodes.append(Ovld(mixins=[nodes[m] for m in op[1]], linkback=op[2]))
+                    # through the public API where there is one: `copy` (what `variant` uses) for a derived function
+                    if op[1]:
+                        nodes.append(nodes[op[1][0]].copy(mixins=[nodes[m] for m in op[1][1:]], linkback=op[2]))
+                    else:
+                        nodes.append(Ovld(mixins=[], linkback=op[2]))
                     out.append({"o": ["ok"]})
                 elif op[0] == "addmix":
                     nodes[op[1]].add_mixins(*[nodes[m] for m in op[2]])
